@@ -158,7 +158,8 @@ def reviewed_side_conditions(ctx):
         w = wl[0]
         c = sir.expr_str(w["cond"]).replace(" ", "")
         ifs = [n for n in sir.walk(w["body"]) if n.get("k") == "if" and sir.expr_str(n["cond"]).replace(" ", "") == 'ps.peek_str("</")']
-        skips = ifs and any(x.get("k") == "mcall" and x["m"] == "skip_until_after" and x["args"] and x["args"][0].get("v") == ">" for x in sir.walk(ifs[0]["then"]))
+        # the skip must really consume: not inside a closure (a `try_parse` look-ahead is rolled back when it fails)
+        skips = ifs and any(x.get("k") == "mcall" and x["m"] == "skip_until_after" and x["args"] and x["args"][0].get("v") == ">" for x in sir.walk(ifs[0]["then"], into_closures=False))
         ok2 = c == "!ps.ended()" and bool(skips)
     obs.append(ob("C01.progress/reviewed/Template::parse", ok2, ctx.where(g), "top loop runs `while !ps.ended()` and answers a stray `</` by skipping past the next `>`: %s" % ok2))
     # skip_until_after consumes everything when the needle is missing
